@@ -674,6 +674,36 @@ func (w *worker) runDataset(idx int) {
 			}
 			continue
 		}
+		if q.dist && len(hits) > 0 && qi%5 == 0 {
+			// "does not exceed": the distance the server itself reports for an object, used as the
+			// radius (the same digits back), still includes that object
+			h := hits[len(hits)/2]
+			if h.hasRep && h.rep > 0 {
+				q2 := q
+				q2.radius, q2.k, q2.dist = h.rep, len(sp)+10, true
+				a2 := []string{"NEARBY", d.key, "LIMIT", strconv.Itoa(q2.k), "DISTANCE", "IDS", "POINT", geo.F(q.lat), geo.F(q.lon), strconv.FormatFloat(h.rep, 'f', -1, 64)}
+				if r2, ok := w.do(d, a2...); ok && !r2.IsErr() {
+					if h2, err := parseHits(r2, true); err == nil {
+						found := false
+						for _, x := range h2 {
+							if x.id == h.id {
+								found = true
+							}
+						}
+						ctx.Eval(1)
+						ctx.Count("queries_radius_equal_to_reported_distance", 1)
+						if !found {
+							reported++
+							if reported <= 2 {
+								ctx.Violation("nearby:radius-excludes-equal-distance", fmt.Sprintf("dataset %d (%s): %q reports %q at %s m; %q (that distance as the radius) does not return it", idx, reg.Name, args, h.id, strconv.FormatFloat(h.rep, 'f', -1, 64), a2),
+									map[string]any{"commands": append(append([][]string{}, d.log...), a2), "query": a2, "id": h.id})
+							}
+							continue
+						}
+					}
+				}
+			}
+		}
 		distinctD := 0
 		for i := range ds {
 			if i == 0 || geo.Cmp(ds[i-1], ds[i]) != 0 {
